@@ -63,7 +63,8 @@ def ele_faults(seg, e, sub_of=None):
     sibs = sub_of.children if sub_of is not None else seg.children
     out = []
     if e.usage == 'N':
-        out.append(('not-used-filled', 'A' * max(mn, 1) if dt in ('AN', 'ID') else '1' * max(mn, 1), None, False))
+        out.append(('not-used-filled', 'A' * max(mn, 1) if dt in ('AN', 'ID') else '1' * max(mn, 1), None,
+                    sub_of is None and in_syntax(seg, e.seq)))
         return out
     coded = bool(e.codes) or bool(e.ext)
     dtx = dt_context(seg, sibs, e)
@@ -108,15 +109,24 @@ def ele_faults(seg, e, sub_of=None):
 
 # ----- carriers ------------------------------------------------------------------------------------
 def carrier(entry, seg, fill=None):
-    plan = {'include': {seg.path}, 'sets': 2}
+    root = G.load(entry[4])
+    plan = {'include': {'#%d' % G.segments(root).index(seg)}, 'sets': 2}
     if fill:
         plan['fill'] = {fill}
+        # a governed Date Time Period needs its format qualifier beside it
+        sibs = seg.children if len(fill) == 2 else [c for c in seg.children if c.seq == fill[1]][0].children
+        tgt = [x for x in sibs if x.seq == fill[-1]]
+        if tgt and getattr(tgt[0], 'de', None) == '1251':
+            for x in sibs:
+                if getattr(x, 'de', None) == '1250' and x.seq < fill[-1] and x.usage != 'N':
+                    plan['fill'].add(fill[:-1] + (x.seq,))
     d = gen.build(entry, plan)
     if gen.selfcheck(d):
         raise gen.Ungeneratable('ambiguous carrier')
     idx = [i for i, n in enumerate(d.nodes) if n is seg]
     if not idx:
         raise gen.Ungeneratable('carrier lacks the target')
+    d.base_text = d.text(eol='\n')
     return d, idx[0]
 
 
@@ -146,10 +156,10 @@ def fix_counts(d):
 
 
 # ----- oracle ----------------------------------------------------------------------------------------
-def observe(d):
+def observe(d, text=None):
     from mc import pipe
     pipe.stub_clock()
-    return pipe.run(d.text(eol='\n'), sinks=('ack',))
+    return pipe.run(text if text is not None else d.text(eol='\n'), sinks=('ack',))
 
 
 def judge(o, d, exp, structural, tag, f):
@@ -180,6 +190,13 @@ def judge(o, d, exp, structural, tag, f):
     if not hits:
         near = [e for e in errs if e[4] == 0 and e[6] == exp['pos']]
         kind = 'wrong-code-or-element' if near else 'not-localised'
+        if near:
+            n0 = near[0]
+            kind += ' got=%s/%s%s' % (n0[0], n0[1], '@other-element' if exp['level'] == 'ele' and n0[7] and n0[1] == exp['code'] else '')
+        else:
+            same = [e for e in errs if e[4] == 0 and e[1] == exp['code'] and e[0] == exp['level']]
+            if same:
+                kind += ' got=%s' % ('previous-position' if (same[0][6] or 0) == exp['pos'] - 1 else 'other-position')
         if structural and near:
             pass
         else:
@@ -359,15 +376,25 @@ def inject_seg(entry, gseg, kind):
         return d, {'level': 'seg', 'code': '1', 'seg_id': 'ZZZ', 'pos': pos}, False
     if kind == 'missing-required-segment':
         d, i = carrier(entry, gseg)
-        del d.segs[i]; del d.nodes[i]
+        lp = d.lpaths[i]
+        del d.segs[i]; del d.nodes[i]; del d.lpaths[i]
         fix_counts(d)
-        st, pos = set_pos(d, i)
-        return d, {'level': 'seg', 'code': '3', 'seg_id': gseg.id, 'pos': pos}, False
+        j = i
+        # same-position siblings may come in any order: the walker can only notice when the position is left
+        while j < len(d.nodes) and d.nodes[j] is not None and d.nodes[j].parent is gseg.parent and d.nodes[j].pos == gseg.pos and d.lpaths[j] == lp:
+            j += 1
+        st, pos = set_pos(d, j)
+        exp = {'level': 'seg', 'code': '3', 'seg_id': gseg.id, 'pos': pos}
+        if j < len(d.segs) and d.segs[j][0] == 'SE':
+            # the suite's expected 997s pin that an error noticed at SE carries the count of the last body segment
+            exp['pos'] = pos - 1
+        return d, exp, False
     if kind == 'beyond-max-use':
         m = G.maxrep(gseg)
         d = gen.build(entry, {'include': {gseg.path}, 'repeat': {gseg.path: m}, 'sets': 2})
         if gen.selfcheck(d):
             raise gen.Ungeneratable('ambiguous carrier')
+        d.base_text = d.text(eol='\n')
         idx = [k for k, n in enumerate(d.nodes) if n is gseg and k < len(d.nodes)]
         first_set = [k for k in idx if set_pos(d, k)[0] == 0]
         last = first_set[-1]
@@ -412,7 +439,7 @@ def inject_loop(entry, gloop, kind):
 def run_case(case):
     entry = tuple(case['entry'])
     root = G.load(entry[4])
-    node = gen.find(root, case['path'])
+    node = G.segments(root)[case['ord']] if 'ord' in case else gen.find(root, case['path'])
     kind = case['kind']
     tag = kind.split(':')[0]
     try:
@@ -425,6 +452,16 @@ def run_case(case):
     except gen.Ungeneratable as e:
         return None, 'ungeneratable: %s' % str(e).split(' at ')[0][:40]
     o = observe(d)
+    res = _judge_all(o, d, exp, structural, tag, entry)
+    if res:
+        # precondition of the property: the carrier itself must be accepted (else it is a C02 matter)
+        clean = observe(d, d.base_text) if getattr(d, 'base_text', None) else None
+        if clean is not None and (clean.verdict is not True or clean.errors):
+            return None, 'carrier itself is rejected (C02 domain)'
+    return res, None
+
+
+def _judge_all(o, d, exp, structural, tag, entry):
     if isinstance(exp.get('ele'), list):
         # syntax note: the error must name one of the positions the note mentions
         members = exp['ele']
@@ -434,8 +471,8 @@ def run_case(case):
             r = judge(o, d, e2, structural, tag, entry[4])
             if best is None or len(r) < len(best):
                 best = r
-        return best, None
-    return judge(o, d, exp, structural, tag, entry[4]), None
+        return best
+    return judge(o, d, exp, structural, tag, entry[4])
 
 
 def evaluate(case):
@@ -452,11 +489,24 @@ def signature(seg, c, x=None):
 def cases_for_entry(entry, thorough):
     root = G.load(entry[4])
     seen = set()
+    for case in _cases_for_entry(root, thorough, seen):
+        yield case
+
+
+def _cases_for_entry(root, thorough, seen):
+    ordmap = dict((id(s), i) for i, s in enumerate(G.segments(root)))
+    for case in _cases_raw(root, thorough, seen):
+        if case['what'] != 'loop':
+            case['ord'] = ordmap[id(case.pop('_node'))]
+        yield case
+
+
+def _cases_raw(root, thorough, seen):
     for seg in G.segments(root):
         if not seg.path.startswith('/ISA_LOOP/GS_LOOP/ST_LOOP/') or seg.id in ENVELOPE or seg.usage == 'N':
             if seg.usage == 'N' and seg.id not in ENVELOPE and seg.path.startswith('/ISA_LOOP/GS_LOOP/ST_LOOP/') and not any(
                     a.kind == 'loop' and a.usage == 'N' for a in ancestors(seg)):
-                yield {'what': 'seg', 'path': seg.path, 'kind': 'not-used-segment'}
+                yield {'what': 'seg', '_node': seg, 'path': seg.path, 'kind': 'not-used-segment'}
             continue
         if any(a.kind == 'loop' and a.usage == 'N' for a in ancestors(seg)):
             continue
@@ -465,14 +515,14 @@ def cases_for_entry(entry, thorough):
         sig = ('seg', seg.id, tuple(seg.syntax), len(seg.children), seg.usage, G.maxrep(seg) if G.maxrep(seg) <= 10 else 99, first_in_loop)
         if thorough or sig not in seen:
             seen.add(sig)
-            yield {'what': 'seg', 'path': seg.path, 'kind': 'too-many-elements'}
-            yield {'what': 'seg', 'path': seg.path, 'kind': 'unknown-id'}
+            yield {'what': 'seg', '_node': seg, 'path': seg.path, 'kind': 'too-many-elements'}
+            yield {'what': 'seg', '_node': seg, 'path': seg.path, 'kind': 'unknown-id'}
             for t in seg.syntax:
-                yield {'what': 'seg', 'path': seg.path, 'kind': 'syntax:' + t}
+                yield {'what': 'seg', '_node': seg, 'path': seg.path, 'kind': 'syntax:' + t}
             if seg.usage == 'R' and not first_in_loop:
-                yield {'what': 'seg', 'path': seg.path, 'kind': 'missing-required-segment'}
+                yield {'what': 'seg', '_node': seg, 'path': seg.path, 'kind': 'missing-required-segment'}
             if G.maxrep(seg) <= 10 and not first_in_loop:
-                yield {'what': 'seg', 'path': seg.path, 'kind': 'beyond-max-use'}
+                yield {'what': 'seg', '_node': seg, 'path': seg.path, 'kind': 'beyond-max-use'}
         for c in seg.children:
             if reader_checked(seg, c):
                 continue
@@ -482,7 +532,7 @@ def cases_for_entry(entry, thorough):
                     continue
                 seen.add(s2)
                 for (kind, val, code, st) in ele_faults(seg, c):
-                    yield {'what': 'ele', 'path': seg.path, 'seq': c.seq, 'kind': kind}
+                    yield {'what': 'ele', '_node': seg, 'path': seg.path, 'seq': c.seq, 'kind': kind}
             else:
                 if c.usage == 'N':
                     continue
@@ -492,7 +542,7 @@ def cases_for_entry(entry, thorough):
                         continue
                     seen.add(s2)
                     for (kind, val, code, st) in ele_faults(seg, x, c):
-                        yield {'what': 'ele', 'path': seg.path, 'seq': c.seq, 'sub': x.seq, 'kind': kind}
+                        yield {'what': 'ele', '_node': seg, 'path': seg.path, 'seq': c.seq, 'sub': x.seq, 'kind': kind}
     for n in G.walk(root):
         if n.kind == 'loop' and not gen.transparent(n) and n.usage != 'N' and n.path.startswith('/ISA_LOOP/GS_LOOP/ST_LOOP/') \
                 and G.maxrep(n) <= 10 and not any(a.usage == 'N' for a in ancestors(n) if a.kind == 'loop'):
